@@ -18,6 +18,7 @@ type Setup struct {
 	Consts  []string
 	Presets []*Preset
 	Seen    map[string]bool
+	Focus   map[string]bool
 }
 
 func NewSetup(e *hx.Env, mismatchFn string) (*Setup, error) {
@@ -25,7 +26,12 @@ func NewSetup(e *hx.Env, mismatchFn string) (*Setup, error) {
 	if err != nil {
 		return nil, err
 	}
-	s := &Setup{Sch: sch, Consts: sch.Constants(), Seen: map[string]bool{}}
+	s := &Setup{Sch: sch, Consts: sch.Constants(), Seen: map[string]bool{}, Focus: map[string]bool{}}
+	for _, f := range strings.Split(os.Getenv("VERIF_FOCUS"), ",") {
+		if f != "" {
+			s.Focus[f] = true
+		}
+	}
 	mn, err := PresetFrom("mainnet", configs.Mainnet, s.Consts)
 	if err != nil {
 		return nil, err
@@ -62,6 +68,12 @@ func NewSetup(e *hx.Env, mismatchFn string) (*Setup, error) {
 // AddCase observes zrnt on input and records the case.
 func (s *Setup) AddCase(e *hx.Env, ent *Entry, pi int, input []byte, kind string, textForms bool) *Obs {
 	p := s.Presets[pi]
+	var fixedSize uint64
+	emptyVar := false
+	if t, err := s.Sch.Instantiate(ent.Name, p.Cfg); err == nil {
+		fixedSize, _ = t.FixedSize()
+		emptyVar = EmptyVarElem(t, input)
+	}
 	key := fmt.Sprintf("%s|%d|%x", ent.Name, pi, input)
 	if s.Seen[key] {
 		return nil
@@ -71,7 +83,8 @@ func (s *Setup) AddCase(e *hx.Env, ent *Entry, pi int, input []byte, kind string
 	coq := fmt.Sprintf("CSsz p%d \"%s\" \"%s\" %s", pi, ent.Name, hex.EncodeToString(input), obs.Coq(input))
 	e.Add(hx.Case{Coq: coq, Kind: kind, NonTrivial: len(input) > 0, Key: key,
 		JSON: map[string]interface{}{"type": ent.Name, "preset": p.Name, "preset_index": pi, "cfg": p.Cfg,
-			"input": hex.EncodeToString(input), "input_len": len(input), "kind": kind, "go": obs.JSON()}})
+			"input": hex.EncodeToString(input), "input_len": len(input), "kind": kind, "go": obs.JSON(),
+			"fixed_size": fixedSize, "empty_var_elem": emptyVar}})
 	return &obs
 }
 
@@ -94,7 +107,11 @@ func (s *Setup) CodecCases(e *hx.Env, maxBytes int, valuesPer, mutPer int) error
 				continue
 			}
 			budget := maxBytes - int(t.MinSize())
-			for k := 0; k < valuesPer; k++ {
+			nvals := valuesPer
+			if s.Focus[ent.Name] {
+				nvals = valuesPer * 8 // targeted generation for a type whose obligation broke (DESIGN 2.6 (c))
+			}
+			for k := 0; k < nvals; k++ {
 				g := NewGen(e.Rng.Fork(), budget)
 				switch k {
 				case 0:
